@@ -917,6 +917,12 @@ def gen_history(rng, typ, tier, length, p_bad):
     steps = []
     rot_seen = False
     for _ in range(length):
+        if typ == "field" and rng.random() < 0.2:
+            st = unmapped_rot_step(rng, s)
+            if st is not None:
+                st["ip"] = rng.random() < 0.7
+                steps.append(st)
+                continue
         if rng.random() < p_bad:
             st = gen_bad_step(rng, s)
             st["ip"] = rng.random() < 0.5
@@ -939,9 +945,100 @@ def gen_history(rng, typ, tier, length, p_bad):
     return dict(kind="history", root=root, steps=steps, tame=tame)
 
 
+def _froot(dims, p2, n, nv, mapping=None, subs=None, units=None):
+    nd = len(dims)
+    cnt = int(np.prod(n))
+    return dict(type="field", p1=[S(0)] * nd, p2=[S(x) for x in p2], dims=list(dims),
+                units=units or ["m", "nm", "s", "um"][:nd], n=list(n), bc="", subs=subs or [],
+                nvdim=nv, mapping=mapping, values=[((7 * i) % 17) - 8 for i in range(cnt * nv)],
+                valid=[i % 3 != 1 for i in range(cnt)])
+
+
+def directed_roots():
+    sub3 = [["a", [[S(0), S(0), S(0)], [S(2), S(2), S(1)]]], ["b", [[S(2), S(1), S(0)], [S(4), S(2), S(1)]]]]
+    x4 = ["x0", "x1", "x2", "x3"]
+    return [
+        ("region3", dict(type="region", p1=[S(0), S(0), S(0)], p2=[S(4), S(2), S(1)], dims=["x", "y", "z"],
+                         units=["m", "nm", "s"])),
+        ("region1", dict(type="region", p1=[S(-1)], p2=[S(3)], dims=["x"], units=["nm"])),
+        ("mesh3-subs", dict(type="mesh", p1=[S(0), S(0), S(0)], p2=[S(4), S(2), S(1)], dims=["x", "y", "z"],
+                            units=["m", "nm", "s"], n=[4, 2, 1], bc="", subs=sub3)),
+        ("mesh2-subs", dict(type="mesh", p1=[S(0), S(0)], p2=[S(F(3, 2)), S(2)], dims=["a", "b"],
+                            units=["m", "s"], n=[3, 2], bc="",
+                            subs=[["core", [[S(F(1, 2)), S(0)], [S(F(3, 2)), S(1)]]]])),
+        ("field3-scalar-subs", _froot("xyz", [4, 2, 1], [4, 2, 1], 1, subs=sub3)),
+        ("field3-vector", _froot("xyz", [4, 2, 1], [4, 2, 1], 3)),
+        ("field2-nv3-unmapped", _froot("xy", [3, 2], [3, 2], 3)),
+        ("field3-nv2-unmapped", _froot("xyz", [4, 2, 1], [4, 2, 1], 2, subs=sub3)),
+        ("field3-partial-none", _froot("xyz", [2, 3, 2], [2, 3, 2], 3,
+                                       mapping=[["x", "x"], ["y", "y"], ["z", None]])),
+        ("field3-empty-mapping", _froot("xyz", [2, 2, 3], [2, 2, 3], 3, mapping=[])),
+        ("field4-nv2-unmapped", _froot(x4, [2, 3, 1, 2], [2, 3, 1, 2], 2,
+                                       subs=[["a", [[S(0), S(1), S(0), S(0)], [S(1), S(3), S(1), S(2)]]]])),
+        ("field4-partial-none", _froot(x4, [2, 1, 3, 2], [2, 1, 3, 2], 4,
+                                       mapping=[["v0", "x0"], ["v1", "x1"], ["v2", None], ["v3", "x3"]])),
+        ("field2-partial-none", _froot("ab", [3, 2], [3, 2], 2, mapping=[["x", "a"], ["y", None]])),
+    ]
+
+
+def unmapped_rotations(s):
+    """every ordered axis pair of a vector field that lacks a mapped component: must be refused"""
+    out = []
+    if s["type"] != "field" or s["nvdim"] <= 1:
+        return out
+    dims = s["reg"]["dims"]
+    nd = len(dims)
+    i = 0
+    for a in range(nd):
+        for b in range(nd):
+            if a == b or (s["rmap"][a] is not None and s["rmap"][b] is not None):
+                continue
+            k = [1, 2, -3, 0, 5][i % 5]
+            ref = dict(t="none") if i % 2 == 0 else seq([F(j + 1, 2) for j in range(nd)], ["tuple", "list", "array"][i % 3])
+            out.append(dict(op="rotate", ax1=dims[a], ax2=dims[b], k=dict(t="int", v=k), ref=ref, ip=True,
+                            cls="unmapped"))
+            i += 1
+    return out
+
+
+def directed_refusals():
+    """fixed part of every run: every refusal path of every operation, on every kind of root, in place
+    (the runner executes both forms); a refusal must leave every observable untouched"""
+    import random
+    cases = []
+    for name, root in directed_roots():
+        s = root_sim(root)
+        r = random.Random(20260930)
+        seen = {}
+        steps = unmapped_rotations(s)
+        for _ in range(600):
+            st = gen_bad_step(r, s)
+            key = (st["op"], st["cls"])
+            if seen.get(key, 0) >= 2:
+                continue
+            if sim_state(s, st) is not None:
+                continue
+            seen[key] = seen.get(key, 0) + 1
+            st["ip"] = seen[key] == 1
+            steps.append(st)
+        for i in range(0, len(steps), 8):
+            cases.append(dict(kind="history", root=root, steps=steps[i:i + 8], tame=bool(s["subs"]),
+                              directed="refusals/" + name))
+    return cases
+
+
+def unmapped_rot_step(rng, s):
+    c = unmapped_rotations(s)
+    if not c:
+        return None
+    st = dict(rng.choice(c))
+    st["k"] = dict(t="int", v=rng.randint(-9, 9))
+    return st
+
+
 def generate(rng, tier):
     quick = tier == "quick"
-    cases = []
+    cases = directed_refusals()
     # directed single steps: every factor sign x form x reference on a fixed region (exact regime)
     for f in [F(-1), F(-2), F(-1, 2), F(0), F(3)]:
         for ref in [dict(t="none"), seq([F(0), F(0), F(0)]), seq([F(2 ** 20), F(-3 * 2 ** 18), F(5)])]:
